@@ -188,3 +188,48 @@ CLAIM = {
     "note": "Trusted: vlib/refsem.py (reference semantics + error bound), vlib/expr.py renderer (Python precedence), mpmath, sympy only for the symbolic stage's numeric evaluation. Generator bounds: depth<=4/6, <=4/7 states.",
     "technique": "property-based testing (Hypothesis) with a reference-model oracle",
 }
+
+
+def extra(tier, seed):
+    """the repository's real models: text -> our AST through the independent Pratt parser
+    (vlib/odeparse.py), reference vs executed NumPy rhs at the default point and two perturbed ones"""
+    import glob
+    import os
+    from vlib import odeparse
+    from vlib.modules import PyMod
+    from vlib import fullcheck
+
+    out = {"failures": [], "evaluations": 0, "nontrivial": [], "labels": {}, "samples": [], "coverage": {}}
+    files = sorted(glob.glob("/repo/tests/odefiles/*.ode"))
+    if tier == "quick":
+        files = [f for f in files if os.path.getsize(f) < 12000]
+    used = []
+    for f in files:
+        text = open(f).read()
+        try:
+            model = odeparse.parse_model(text)
+            ode = B.load(text)
+            mod = PyMod(B.py_code(ode))
+        except Exception as ex:
+            out["labels"][f"corpus-skip:{type(ex).__name__}"] = out["labels"].get(f"corpus-skip:{type(ex).__name__}", 0) + 1
+            continue
+        used.append(os.path.basename(f))
+        base = G.default_point(model)
+        pts = [base]
+        for k in (1, 2):
+            p2 = {"t": float(k), "states": {n: v * (1 + 0.01 * k) + 0.001 * k for n, v in base["states"].items()}, "params": dict(base["params"])}
+            pts.append(p2)
+        for pt in pts:
+            out["evaluations"] += 1
+            ev = refsem.Evaluator(model, pt)
+            try:
+                n = fullcheck.compare_slots("C01", mod, "rhs", "state", fullcheck.expected_rhs(model, ev), pt, ctx={"file": f})
+                n += fullcheck.compare_slots("C01", mod, "monitor_values", "monitor", fullcheck.expected_monitor(model, ev), pt, ctx={"file": f})
+                if n:
+                    out["nontrivial"].append(X.sha([f, pt["t"]]))
+            except Violation as v:
+                d = {k: str(x)[:600] for k, x in v.detail.items() if k != "code"}
+                out["failures"].append((f"C01:corpus:{os.path.basename(f)}:{v.signature.split(':')[-1]}", {"corpus_file": os.path.basename(f), "point_t": pt["t"]}, d))
+                break
+    out["coverage"] = {"corpus_files": used}
+    return out
